@@ -32,6 +32,7 @@ func isConsuming(n string) bool {
 func runC05(c *Ctx) {
 	r := c.R
 	defer ruleReadErrorsPropagate(c, "R5.9")
+	defer rulePayloadOwnership(c, "R5.10", "C05: every frame returned corresponds to the bytes consumed for that call, also after later calls")
 	r.NotDecided = append(r.NotDecided,
 		"absence of panics in general and independence from the segmentation as observed behaviours: they follow from R5.1/R5.2/R5.5/R5.8 plus bufio's and io.ReadFull's contracts, which are trusted, not analysed",
 		"the n+1 call bound as an observation")
@@ -243,6 +244,7 @@ func runC05(c *Ctx) {
 		}
 		r.Functions[fnQual(fn)] = true
 		peeks := callsNamed(fn, "frame.peekAndDiscard", "(bufio.Reader).Peek")
+		allConsuming := callsIn(fn, func(n string, cc *ssa.CallCommon) bool { return isConsuming(n) })
 		nIdx, bad55 := 0, ""
 		bad58 := ""
 		for _, p := range peeks {
@@ -266,7 +268,7 @@ func runC05(c *Ctx) {
 				for _, u := range *v.Referrers() {
 					// R5.8: the use must not come after a later consuming call
 					for _, k := range callsIn(fn, func(n string, cc *ssa.CallCommon) bool { return isConsuming(n) }) {
-						if k != ssa.CallInstruction(pc) && reachInstr(pc, k) && reachInstr(k, u) {
+						if k != ssa.CallInstruction(pc) && !harmlessDiscard(pc, k, allConsuming) && reachInstr(pc, k) && reachInstr(k, u) {
 							if _, isSl := u.(*ssa.Slice); !isSl {
 								if _, isIA := u.(*ssa.IndexAddr); !isIA {
 									bad58 = fmt.Sprintf("%s uses bytes peeked at %s after the later read at %s", c.Pos(u.Pos()), c.Pos(pc.Pos()), c.Pos(k.Pos()))
@@ -288,7 +290,7 @@ func runC05(c *Ctx) {
 						if x.Referrers() != nil {
 							for _, ld := range *x.Referrers() {
 								for _, k := range callsIn(fn, func(n string, cc *ssa.CallCommon) bool { return isConsuming(n) }) {
-									if k != ssa.CallInstruction(pc) && reachInstr(pc, k) && reachInstr(k, ld) {
+									if k != ssa.CallInstruction(pc) && !harmlessDiscard(pc, k, allConsuming) && reachInstr(pc, k) && reachInstr(k, ld) {
 										bad58 = fmt.Sprintf("%s reads a byte peeked at %s after the later read at %s", c.Pos(ld.Pos()), c.Pos(pc.Pos()), c.Pos(k.Pos()))
 									}
 								}
@@ -368,7 +370,10 @@ func runC05(c *Ctx) {
 		r.Check(bad57 == "", "R5.7", name+" byte arithmetic", c.Pos(fn.Pos()), "wire bytes are widened before arithmetic", bad57)
 	}
 	// peekAndDiscard itself: Peek error returned; buffer returned is the peeked one
-	if pd := c.Fn("pkg/frame", "peekAndDiscard"); pd != nil {
+	if pd := c.FnOpt("pkg/frame", "peekAndDiscard"); pd == nil {
+		// written out at its call sites: the pairing Peek(n) → success → Discard(n) is R5.2's obligation at each site
+		r.OK("R5.5", "peekAndDiscard", "-", "no helper: Peek / Discard are written out in unmarshal (paired by R5.2)")
+	} else {
 		pk := callsNamed(pd, "(bufio.Reader).Peek")
 		ok := len(pk) == 1 && ex(pk[0].Common().Args[0]) == "arg0" && ex(pk[0].Common().Args[1]) == "arg1"
 		if ok {
@@ -502,9 +507,10 @@ func peekLifetimeProblem(c *Ctx, fn *ssa.Function) string {
 		if buf == nil {
 			continue
 		}
+		harmless := func(k ssa.CallInstruction) bool { return harmlessDiscard(pc, k, consuming) }
 		after := func(u ssa.Instruction) ssa.CallInstruction {
 			for _, k := range consuming {
-				if k != ssa.CallInstruction(pc) && reachInstr(pc, k) && reachInstr(k, u) {
+				if k != ssa.CallInstruction(pc) && !harmless(k) && reachInstr(pc, k) && reachInstr(k, u) {
 					return k
 				}
 			}
@@ -715,4 +721,120 @@ func reachKnowingNonNil(from, start *ssa.BasicBlock, ev ssa.Value, stop *ssa.Bas
 	}
 	dfs(start, from, map[ssa.Value]bool{ev: true}, 0)
 	return out
+}
+
+// freshBytes: the slice is allocated by this very function (make / append onto nil / a Clone), possibly re-sliced:
+// nothing that outlives the call shares its memory. A phi is fresh when all of its edges are.
+func freshBytes(v ssa.Value, depth int) bool {
+	if depth > 6 {
+		return false
+	}
+	switch x := v.(type) {
+	case *ssa.MakeSlice:
+		return true
+	case *ssa.Slice:
+		// a slice of a local array counts when the array is a fresh allocation that was not spilled from elsewhere
+		if a, ok := x.X.(*ssa.Alloc); ok {
+			return a.Heap || true
+		}
+		return freshBytes(x.X, depth+1)
+	case *ssa.Phi:
+		for _, e := range x.Edges {
+			if !freshBytes(e, depth+1) {
+				return false
+			}
+		}
+		return true
+	case *ssa.Const:
+		return x.Value == nil // nil slice
+	case *ssa.Call:
+		n := calleeName(&x.Call)
+		if n == "bytes.Clone" || n == "slices.Clone" {
+			return true
+		}
+		if n == "append" && len(x.Call.Args) > 0 {
+			return freshBytes(x.Call.Args[0], depth+1)
+		}
+	case *ssa.ChangeType:
+		return freshBytes(x.X, depth+1)
+	case *ssa.Convert:
+		return freshBytes(x.X, depth+1)
+	}
+	return false
+}
+
+// rulePayloadOwnership: a frame handed to the caller owns its payload. In V1Frame.unmarshal / V2Frame.unmarshal the
+// bytes put into MessageRaw.Payload are allocated by that call; when they are not (a scratch buffer of the reader,
+// a caller-provided buffer), Reader.Read must replace the message / payload on every path to a successful return.
+// Otherwise the payload of a frame already returned changes when the next frame is read (and, across goroutines,
+// is written while the application or a forwarding writer reads it).
+func rulePayloadOwnership(c *Ctx, rule, why string) {
+	r := c.R
+	r.Rule(rule, "a returned frame owns its payload: the bytes stored into MessageRaw.Payload by V1Frame.unmarshal / V2Frame.unmarshal are allocated by that call (make / append / Clone), or else Reader.Read replaces the message on every path to a successful return — "+why, 2)
+	rd := c.FnOpt("pkg/frame", "Reader.Read")
+	for _, name := range []string{"V1Frame.unmarshal", "V2Frame.unmarshal"} {
+		fn := c.Fn("pkg/frame", name)
+		if fn == nil {
+			continue
+		}
+		r.Functions[fnQual(fn)] = true
+		n, bad := 0, ""
+		for _, a := range litAllocs(fn, "message.MessageRaw") {
+			v := litFields(a)["Payload"]
+			if v == nil {
+				continue
+			}
+			n++
+			if freshBytes(v, 0) {
+				continue
+			}
+			// not allocated here: does Reader.Read always replace it?
+			replaced := false
+			if rd != nil {
+				for _, um := range callsIn(rd, func(nm string, cc *ssa.CallCommon) bool {
+					return strings.HasSuffix(nm, ".unmarshal") || cc.IsInvoke() && cc.Method.Name() == "unmarshal"
+				}) {
+					_, leak := pathExistsAvoiding(um, func(in ssa.Instruction) bool {
+						ret, isRet := in.(*ssa.Return)
+						return isRet && len(ret.Results) == 2 && isNilConst(ret.Results[1])
+					}, func(in ssa.Instruction) bool {
+						st, isSt := in.(*ssa.Store)
+						if !isSt {
+							return false
+						}
+						f, _ := fieldOfAddr(st.Addr)
+						return f != nil && (f.Name() == "Message" || f.Name() == "Payload")
+					})
+					replaced = !leak
+				}
+			}
+			if !replaced {
+				bad = "MessageRaw.Payload is " + clip(ex(v), 100) + " (" + c.Pos(a.Pos()) + "), memory that is not allocated by this call and is not replaced on every successful path of Reader.Read: the payload of a returned frame is overwritten when a later frame is read"
+			}
+		}
+		if n == 0 {
+			r.Broken(rule, name+" payload ownership", "no MessageRaw literal with a Payload found in "+name)
+			continue
+		}
+		r.Check(bad == "", rule, name+" payload ownership", c.Pos(fn.Pos()), "payload bytes are allocated by the call that returns the frame", bad)
+	}
+}
+
+// harmlessDiscard: Discard(n) directly after Peek(m), n ≤ m, on the same reader only advances the read position: the
+// m peeked bytes are buffered, so nothing is refilled and the peeked slice stays valid (what peekAndDiscard does).
+func harmlessDiscard(pc *ssa.Call, k ssa.CallInstruction, consuming []ssa.CallInstruction) bool {
+	if calleeName(k.Common()) != "(bufio.Reader).Discard" || calleeName(&pc.Call) != "(bufio.Reader).Peek" || k.Common().Args[0] != pc.Call.Args[0] {
+		return false
+	}
+	n, okN := constInt(k.Common().Args[1])
+	m, okM := constInt(pc.Call.Args[1])
+	if !(k.Common().Args[1] == pc.Call.Args[1] || okN && okM && n <= m) {
+		return false
+	}
+	for _, o := range consuming {
+		if o != k && o != ssa.CallInstruction(pc) && reachInstr(pc, o) && reachInstr(o, k) {
+			return false
+		}
+	}
+	return true
 }
